@@ -32,6 +32,7 @@ import (
 )
 
 var w *lib.Writer
+var wiringDone bool
 var nolog = slog.New(slog.NewTextHandler(io.Discard, nil))
 
 // ---- scenario ----
@@ -320,7 +321,7 @@ func (sc *scenario) tags(pan bool, events []string) string {
 func emit(sc *scenario) {
 	pan, events := runScenario(sc)
 	kind := "sync.run"
-	if sc.fam == "extreme-known" {
+	if sc.fam == "extreme-known" || sc.fam == "extreme-strict" {
 		kind = "sync.extreme"
 	}
 	w.Case(kind, sc.tags(pan, events), sc.args(), lib.V(lib.Bool(pan), lib.L(events...)))
@@ -420,6 +421,17 @@ func main() {
 				driftCase(lib.ParseI(f[0]), lib.ParseI(f[1]))
 			case "sync.config":
 				replayConfig(l[2])
+			case "sync.build":
+				buildCase()
+			case "sync.wiring":
+				if !wiringDone {
+					wiringDone = true
+					wiringCases()
+				}
+			case "sync.sleep":
+				sleepCase(time.Duration(lib.ParseI(lib.Fields(l[2])[0])))
+			case "sync.clocks":
+				replayClocks(l[2])
 			}
 		}
 		return
@@ -430,7 +442,24 @@ func main() {
 		nScen, nDrift, maxRounds, nCfg = 160000, 100000, 50, 3000
 	}
 	generate(r, nScen, nDrift, maxRounds)
+	// ties at the deadline, SyncTimeout = 0, strict judgement of caps in [2^62, 2^63), many sources
+	for i := 0; i < nScen/20; i++ {
+		switch i % 4 {
+		case 0:
+			emit(genTies(r, maxRounds))
+		case 1:
+			emit(genTimeoutZero(r))
+		case 2:
+			emit(genExtremeStrict(r))
+		default:
+			emit(genManySources(r, maxRounds))
+		}
+	}
+	// the source-level tie of runServer / runClient / createClocks, the real Sleep
+	wiringCases()
+	sleepCases(r, nCfg/100)
 	// the configuration path (TOML settings through the service's own functions), then Run on what they return
 	generateConfig(r, nCfg)
+	clocksCases(r, serviceBinary(), nCfg/2)
 	fmt.Fprintf(os.Stderr, "c01: %d cases\n", w.N())
 }
